@@ -5,7 +5,7 @@ import ast
 from dataclasses import dataclass
 from typing import Optional, Tuple
 
-from .. import consteval, structfmt, sym
+from .. import normal, consteval, structfmt, sym
 from ..model import AnalysisError, Repo
 from ..report import Run
 from ..sym import T
@@ -383,6 +383,40 @@ def check(repo: Repo, run: Run) -> None:
                    f"{name} depends on {foreign[:3]}: the decoded field is not a function of the record's own bytes alone "
                    f"(a table, cache or other state decides the value for some records)",
                    facts={"term": sym.pretty(bound[name])[:200]})
+            continue
+        leaves = normal.guarded_leaves(bound[name])
+        if len(leaves) > 1:
+            # a conditional value: every alternative must be the field itself, otherwise the field also depends on whatever
+            # the condition reads
+            bad = None
+            try:
+                for pc, leaf in leaves:
+                    if not _same(ev.ev(leaf), want):
+                        bad = (pc, leaf)
+                        break
+            except Raises as e:
+                run.ob("R4", MOD, "from_kd_buf", f"field {name}", False, f"computing {name} raises on one path: {e}")
+                continue
+            except Unsupported as e:
+                raise AnalysisError(f"from_kd_buf: field {name}: idiom outside the supported set ({e}): "
+                                    f"{sym.pretty(bound[name])[:100]}")
+            reads = set()
+            for pc, _ in leaves:
+                for c, _p in pc:
+                    for x in sym.walk(c):
+                        try:
+                            v = ev.ev(x)
+                        except (Unsupported, Raises):
+                            continue
+                        if isinstance(v, Int):
+                            reads.update(b // 8 for b in v.bits if isinstance(b, int))
+            run.ob("R2", MOD, "from_kd_buf", f"field {name}", bad is None,
+                   "" if bad is None else
+                   f"{name} should be {what} but is {describe(ev.ev(bad[1]))} when "
+                   f"{' and '.join((sym.pretty(c)[:50] if p_ else 'not ' + sym.pretty(c)[:50]) for c, p_ in bad[0])}: the field "
+                   f"depends on record bytes {sorted(reads)[:12]} outside its own field",
+                   facts={"term": sym.pretty(bound[name])[:200]},
+                   witness=None if bad is None else "a record for which that condition holds and the field's dropped bits are set")
             continue
         try:
             got = ev.ev(bound[name])
